@@ -4,7 +4,7 @@
    pipeline, order across batches, watermarks accepted by a Temporal receiver) are an executable monitor
    applied to every implementation trace and tied to the model by the correspondence. *)
 From Coq Require Import List ZArith Bool.
-From S2S Require Import Routing.Model Routing.Basic Routing.Delivery Routing.Inv Routing.Place.
+From S2S Require Import Routing.Model Routing.Basic Routing.Delivery Routing.Inv Routing.Place Routing.Wire.
 Import ListNotations.
 Open Scope Z_scope.
 
@@ -75,3 +75,15 @@ Theorem C02_exact_placement : forall ns nt l,
     tasks_of sr (L s) ++ map t_id (pend r T) = map t_id (owned_by T (r_rcv r)).
 Proof. intros ns nt l Hwf. apply (place_run l _ (inv_init ns nt) (place_init ns nt) Hwf). Qed.
 Print Assumptions C02_exact_placement.
+
+(* The last hop.  What has been written on target T's stream (all OTgt T outputs of the run, in order), followed by the
+   message in flight, carries exactly the proxy ids of the task entries of T's id table, in order, each once; the ids on
+   the wire are strictly increasing.  With C02_exact_placement (the table's task entries are exactly the received tasks T
+   owns) every received task is written to its owner's stream at most once, under a fresh id, and to no other stream. *)
+Theorem C02_wire_ids : forall ns nt l,
+  wf_run (init ns nt) l ->
+  let '(x, outs) := run_acts true (init ns nt) l in
+  forall T s, send_at x T s ->
+    map w_pid (wire T outs ++ inflight_ws s) = tpids 1 (s_hist s) /\ increasing (map w_pid (wire T outs)).
+Proof. exact wire_ids. Qed.
+Print Assumptions C02_wire_ids.
